@@ -26,12 +26,16 @@ Plain(c) == <<[w |-> "plain", c |-> c]>>
 T1Show == Plain(<<Txt(<<"(">>), Par(<<"1">>), Txt(<<",">>), ParD(<<"x">>, <<Txt(<<"d">>)>>), Txt(<<")">>)>>)
 SpBody == Plain(<<Txt(<<"SP", "v", "SP">>)>>)
 StarBody == Plain(<<Txt(<<"*">>), Par(<<"1">>)>>)
+\* the helper templates (( and )) expand to literal braces: a value built from them is text
+\* that looks like a call and must not be expanded a second time
 Lib == ("T1" :> T1Show) @@ ("Sp" :> SpBody) @@ ("St" :> StarBody)
+       @@ ("((" :> Plain(<<Txt(<<"{{">>)>>)) @@ ("))" :> Plain(<<Txt(<<"}}">>)>>))
+Braced == <<Call("((", <<>>), Txt(<<"Sp">>), Call("))", <<>>)>>
 
-Values == { <<Txt(<<"a">>)>>, <<Txt(<<"SP", "b", "SP">>)>>, <<Txt(<<"NL", "c">>)>>, <<Txt(<<"c", "NL">>)>>, <<Call("Sp", <<>>)>>,
+Values == { Braced, <<Txt(<<"a">>)>>, <<Txt(<<"SP", "b", "SP">>)>>, <<Txt(<<"NL", "c">>)>>, <<Txt(<<"c", "NL">>)>>, <<Call("Sp", <<>>)>>,
             <<Call("T1", <<Pos(<<Txt(<<"i">>)>>)>>)>>, <<Txt(<<"p">>), Call("Sp", <<>>), Txt(<<"q">>)>>,
             <<Call("NOPE", <<>>)>>, <<Call("St", <<Pos(<<Txt(<<"s">>)>>)>>)>> }
-ValuesQ == { <<Txt(<<"a">>)>>, <<Txt(<<"SP", "b", "SP">>)>>, <<Txt(<<"c", "NL">>)>>, <<Call("Sp", <<>>)>>,
+ValuesQ == { Braced, <<Txt(<<"a">>)>>, <<Txt(<<"SP", "b", "SP">>)>>, <<Txt(<<"c", "NL">>)>>, <<Call("Sp", <<>>)>>,
              <<Call("T1", <<Pos(<<Txt(<<"i">>)>>)>>)>>, <<Call("St", <<Pos(<<Txt(<<"s">>)>>)>>)>> }
 Frags == { <<Txt(<<"t">>)>>, <<Call("T1", <<Pos(<<Txt(<<"z">>)>>), Named(<<"x">>, <<Call("Sp", <<>>)>>)>>)>>,
            <<If(<<Call("Sp", <<>>)>>, <<Txt(<<"SP", "y">>)>>, <<Txt(<<"n">>)>>)>>,
@@ -42,7 +46,7 @@ Strs == { <<"e">>, <<"SP", "g", "SP">>, <<>> }
 
 V == IF Universe = "Q" THEN ValuesQ ELSE Values
 \* values of the numeric-named argument 2=...
-V3 == { <<Txt(<<"g">>)>>, <<Call("Sp", <<>>)>>, <<Txt(<<"NL">>), Call("T1", <<Pos(<<Txt(<<"j">>)>>)>>), Txt(<<"SP">>)>> }
+V3 == { Braced, <<Txt(<<"g">>)>>, <<Call("Sp", <<>>)>>, <<Txt(<<"NL">>), Call("T1", <<Pos(<<Txt(<<"j">>)>>)>>), Txt(<<"SP">>)>> }
 Cases == { [depth |-> d, a1 |-> a1, a2 |-> a2, a3 |-> a3, frag |-> fr, s1 |-> s1, s2 |-> s2] :
              d \in 0..2, a1 \in V, a2 \in V, a3 \in V3, fr \in (IF Universe = "Q" THEN {<<Txt(<<"t">>)>>, <<Call("T1", <<Pos(<<Txt(<<"z">>)>>), Named(<<"x">>, <<Call("Sp", <<>>)>>)>>)>>} ELSE Frags),
              s1 \in Strs, s2 \in (IF Universe = "Q" THEN {<<"e">>} ELSE Strs) }
